@@ -4,7 +4,8 @@ import os, subprocess, sys, json, time, hashlib, random
 from fractions import Fraction
 
 VERIF = os.path.dirname(os.path.dirname(os.path.abspath(__file__)))
-BUILD = os.path.join(VERIF, "build")
+import build as _build
+BUILD = _build.BUILD
 
 # ---------------------------------------------------------------- s-expressions
 
